@@ -13,10 +13,13 @@ import (
 	"fmt"
 	"math/big"
 	"math/rand"
+	"strings"
 	"sync"
 	"time"
 
 	"github.com/markkurossi/mpc/circuit"
+	"github.com/markkurossi/mpc/compiler"
+	"github.com/markkurossi/mpc/compiler/utils"
 	"github.com/markkurossi/mpc/env"
 	"github.com/markkurossi/mpc/ot"
 	"github.com/markkurossi/mpc/p2p"
@@ -227,10 +230,44 @@ type sessResult struct {
 	bytesGE      int
 	bytesEG      int
 	preOTBytesGE int
+	gIO, eIO     circuit.IO
 }
 
 // runWhole runs one whole-circuit session of circuit.Garbler and circuit.Evaluator.
 func runWhole(circ *circuit.Circuit, x, y *big.Int, o sessOpts) *sessResult {
+	return runSession(o,
+		func(cfg *env.Config, conn *p2p.Conn, oti ot.OT) ([]*big.Int, error) {
+			return circuit.Garbler(cfg, conn, oti, circ, x, false)
+		},
+		func(conn *p2p.Conn, oti ot.OT) ([]*big.Int, error) {
+			return circuit.Evaluator(conn, oti, circ, y, false)
+		})
+}
+
+// runStream runs one streaming session: compiler.Stream against circuit.StreamEvaluator.
+// The output types of both sides are returned in gIO / eIO.
+func runStream(src string, x, y []string, o sessOpts) *sessResult {
+	var gIO, eIO circuit.IO
+	res := runSession(o,
+		func(cfg *env.Config, conn *p2p.Conn, oti ot.OT) ([]*big.Int, error) {
+			params := utils.NewParams()
+			params.Config = cfg
+			params.MPCLCErrorLoc = false
+			io, out, err := compiler.New(params).Stream(conn, oti, "{verif}", strings.NewReader(src), x, nil)
+			gIO = io
+			return out, err
+		},
+		func(conn *p2p.Conn, oti ot.OT) ([]*big.Int, error) {
+			io, out, err := circuit.StreamEvaluator(conn, oti, y, nil, false)
+			eIO = io
+			return out, err
+		})
+	res.gIO, res.eIO = gIO, eIO
+	return res
+}
+
+func runSession(o sessOpts, gfun func(*env.Config, *p2p.Conn, ot.OT) ([]*big.Int, error),
+	efun func(*p2p.Conn, ot.OT) ([]*big.Int, error)) *sessResult {
 	ge, eg := newSessPipe(), newSessPipe()
 	ge.record, eg.record = o.record, o.record
 	if o.fragment != nil {
@@ -257,9 +294,11 @@ func runWhole(circ *circuit.Circuit, x, y *big.Int, o sessOpts) *sessResult {
 		defer func() {
 			if r := recover(); r != nil {
 				res.gPanic = fmt.Sprint(r)
+				ge.close()
+				eg.close()
 			}
 		}()
-		res.gOut, res.gErr = circuit.Garbler(cfg, gconn, res.otG, circ, x, false)
+		res.gOut, res.gErr = gfun(cfg, gconn, res.otG)
 		if res.gErr != nil {
 			// an erring party drops the connection
 			ge.close()
@@ -275,7 +314,7 @@ func runWhole(circ *circuit.Circuit, x, y *big.Int, o sessOpts) *sessResult {
 				eg.close()
 			}
 		}()
-		res.eOut, res.eErr = circuit.Evaluator(econn, res.otE, circ, y, false)
+		res.eOut, res.eErr = efun(econn, res.otE)
 		if res.eErr != nil {
 			ge.close()
 			eg.close()
